@@ -65,14 +65,17 @@ def annotation_case(args):
     d = os.path.join(scratch, "c12a_%s_%d_%s_%s" % (rep.replace(".", ""), complete, cache, style))
     shutil.rmtree(d, ignore_errors=True)
     paths = syn.materialise(w, d)
-    if style != "plain":
+    if style not in ("plain", "shuffled"):
         syn.write_gtf(w, paths["gtf"], style=style)
-    # reference run: plain gtf, --complete_genedb, fresh home
+    # reference run: plain gtf, --complete_genedb, fresh home (the record ORDER of a GTF is not part of the annotation: the reference of
+    # the shuffled style is the run on the plain file)
     ref_out = os.path.join(d, "ref")
     rc = run.run_isoquant(run.base_argv(paths, ref_out), paths["home"], os.path.join(d, "ref.txt"))
     if rc != 0:
         return args[:3] + (style,), [("reference-run-failed", "exit %d (%s style)" % (rc, style))]
     t0 = run.read_tree(os.path.join(ref_out, "OUT"))
+    if style == "shuffled":
+        syn.write_gtf(w, paths["gtf"], style=style)
     ann = paths["gtf"]
     if rep == "gtf.gz":
         ann = paths["gtf"] + ".gz"
